@@ -95,3 +95,34 @@ Proof.
   destruct (status_eqb (c_status cs) SUnauthenticated); [|discriminate].
   destruct (groups_empty (c_obs cs)); [auto|discriminate].
 Qed.
+
+(** C05, walk overlapped by writers: when [kp_weak] reports nothing, every
+    update sent is wanted by the request and is a notification that was stored
+    at some moment of the call (in the dump before it, or written during it);
+    every wanted notification stored before and still stored after the call
+    (hence throughout: writers' timestamps increase) was sent before the sync;
+    and the group ends with its only sync. *)
+Lemma kp_weak_sound rq pf d0 writes d1 g :
+  kp_weak rq pf d0 writes d1 g = [] -> r_updates_only rq = false ->
+  (exists l, g = l ++ [OSync] /\ ~ In OSync l)
+  /\ (forall n, In n (upds_of g) ->
+        wants rq pf (g_target (n_prefix n)) n = true
+        /\ existsb (noti_eqb n) (map snd d0 ++ writes) = true)
+  /\ (forall e, In e d0 -> wants rq pf (fst (fst e)) (snd e) = true ->
+        existsb (dentry_eqb e) d1 = true ->
+        existsb (noti_eqb (snd e)) (before_sync g) = true).
+Proof.
+  unfold kp_weak. intros H Huo. rewrite Huo in H. cbn [orb] in H.
+  apply app_eq_nil in H as [H1 H]. apply app_eq_nil in H as [H2 H3].
+  apply kf_or_nil in H1. apply kf_or_nil in H2.
+  split; [|split].
+  - apply one_sync_last_spec. destruct (one_sync_last g); [reflexivity|discriminate].
+  - intros n Hin. pose proof (filter_nil _ _ H1 n Hin) as Hf.
+    apply negb_false_iff, andb_true_iff in Hf. exact Hf.
+  - intros e Hin Hw Hd1.
+    pose proof (filter_nil _ _ H2 (snd e)) as Hf.
+    assert (Hin' : In (snd e) (map snd (filter (fun e => wants rq pf (fst (fst e)) (snd e)
+                                                          && existsb (dentry_eqb e) d1) d0))).
+    { apply in_map. apply filter_In. split; [assumption|]. now rewrite Hw, Hd1. }
+    specialize (Hf Hin'). now apply negb_false_iff in Hf.
+Qed.
